@@ -32,3 +32,12 @@ Definition ex_wire : list Z := 64 :: 5 :: ex_payload.
 Definition ex_arrivals : list nev :=
   [NArrive ex_wire 0 4 0 10 true; NArrive ex_wire 0 5 0 11 true;
    NArrive (64 :: 5 :: 9 :: tl ex_payload) 0 5 0 12 true; NArrive (firstn 10 ex_wire) 0 5 0 13 true].
+
+(** Replay behind more than MaxNumAckRanges gaps (the schedule of finding simdgram/dup-replay-beyond-ack-ranges):
+    packets 0, 2, 4, ..., 2*(n-1) arrive (2-byte packet numbers, an AEAD that opens exactly [ex_payload] under
+    any number), then packet 0 is replayed. *)
+Definition ex2_open (pn kp : Z) (ad c : list Z) : option (list Z) := if zeqb_list c ex_payload then Some c else None.
+Definition ex2_wire (pn : Z) : list Z := 65 :: (pn / 256) :: (pn mod 256) :: ex_payload.
+Definition ex2_arrivals (n : nat) : list nev :=
+  map (fun k => let pn := 2 * Z.of_nat k in NArrive (ex2_wire pn) 0 (Z.max 0 (pn - 2)) 0 (Z.of_nat k) true) (seq 0 n)
+  ++ [NArrive (ex2_wire 0) 0 (2 * Z.of_nat n - 2) 0 1000 true].
